@@ -312,4 +312,110 @@ def devOrVarRead (d : List Nat) : Except LErr DevOrVar :=
       | some o, some i => .ok (.varIdx o i)
       | _, _ => .error .oob
 
+/-! ## script lists and script tags (read-fonts/src/tables/layout/script.rs)
+
+Tags are the big-endian `u32` value of their four bytes (`Tag: Ord` is the byte-wise order). -/
+
+def tg (a b c d : Char) : Nat := ((a.toNat * 256 + b.toNat) * 256 + c.toNat) * 256 + d.toNat
+
+def tagBytes (t : Nat) : List Nat := [t / 16777216 % 256, t / 65536 % 256, t / 256 % 256, t % 256]
+
+def tagOfBytes : List Nat → Nat
+  | [a, b, c, d] => ((a * 256 + b) * 256 + c) * 256 + d
+  | _ => 0
+
+/-- generated `ScriptList::read`: `script_count` × `ScriptRecord { tag, offset }` (6 bytes) -/
+def scriptListRead (d : List Nat) : Except LErr (List (Nat × Nat)) :=
+  match readAt d 0 2 with
+  | none => .error .oob
+  | some n =>
+    if 2 + n * 6 ≤ d.length then
+      .ok ((List.range n).map (fun i => (beAt d (2 + 6 * i) 4, beAt d (2 + 6 * i + 4) 2)))
+    else .error .oob
+
+/-- generated `Script::read`: `default_lang_sys_offset`, `lang_sys_count` × `LangSysRecord { tag, offset }` -/
+def scriptRead (d : List Nat) : Except LErr (List (Nat × Nat)) :=
+  match readAt d 0 2, readAt d 2 2 with
+  | some _, some n =>
+    if 4 + n * 6 ≤ d.length then
+      .ok ((List.range n).map (fun i => (beAt d (4 + 6 * i) 4, beAt d (4 + 6 * i + 4) 2)))
+    else .error .oob
+  | _, _ => .error .oob
+
+/-- `ScriptList::index_for_tag` / `Script::lang_sys_index_for_tag`:
+`records.binary_search_by_key(&tag, |rec| rec.tag()).map(|index| index as u16).ok()` -/
+def indexForTag (tags : List Nat) (tag : Nat) : Option Nat :=
+  match binarySearchBy tags.length (fun i => natCmp (tags.getD i 0) tag) with
+  | .ok i => some (i % 65536)
+  | .err _ => none
+
+/-- the two `for` loops of `ScriptList::select`: the first tag with an index -/
+def selectLoop (recs : List Nat) : List Nat → Option (Nat × Nat)
+  | [] => none
+  | t :: rest =>
+    match indexForTag recs t with
+    | some i => some (t, i)
+    | none => selectLoop recs rest
+
+/-- `ScriptList::select(tags)`: `(tag, index, is_fallback)`; the fallbacks are `DFLT`, `dflt`, `latn` -/
+def select (recs : List Nat) (tags : List Nat) : Option (Nat × Nat × Bool) :=
+  match selectLoop recs tags with
+  | some (t, i) => some (t, i, false)
+  | none =>
+    match selectLoop recs [tg 'D' 'F' 'L' 'T', tg 'd' 'f' 'l' 't', tg 'l' 'a' 't' 'n'] with
+    | some (t, i) => some (t, i, true)
+    | none => none
+
+/-- `UNICODE_TO_NEW_OPENTYPE_SCRIPT_TAGS` -/
+def newScriptTags : List (Nat × Nat) :=
+  [(tg 'B' 'e' 'n' 'g', tg 'b' 'n' 'g' '2'), (tg 'D' 'e' 'v' 'a', tg 'd' 'e' 'v' '2'),
+   (tg 'G' 'u' 'j' 'r', tg 'g' 'j' 'r' '2'), (tg 'G' 'u' 'r' 'u', tg 'g' 'u' 'r' '2'),
+   (tg 'K' 'n' 'd' 'a', tg 'k' 'n' 'd' '2'), (tg 'M' 'l' 'y' 'm', tg 'm' 'l' 'm' '2'),
+   (tg 'M' 'y' 'm' 'r', tg 'm' 'y' 'm' '2'), (tg 'O' 'r' 'y' 'a', tg 'o' 'r' 'y' '2'),
+   (tg 'T' 'a' 'm' 'l', tg 't' 'm' 'l' '2'), (tg 'T' 'e' 'l' 'u', tg 't' 'e' 'l' '2')]
+
+/-- `new_tag_from_unicode`: `binary_search_by_key(..).ok()?`, `TABLE.get(ix).map(|e| e.1)` -/
+def newTagFromUnicode (u : Nat) : Option Nat :=
+  match binarySearchBy newScriptTags.length (fun i => natCmp (newScriptTags.getD i (0, 0)).1 u) with
+  | .ok i => (newScriptTags[i]?).map (·.2)
+  | .err _ => none
+
+/-- `u8::to_ascii_lowercase` -/
+def asciiLower (b : Nat) : Nat := if 65 ≤ b ∧ b ≤ 90 then b + 32 else b
+
+/-- `old_tag_from_unicode`: six special cases, else the first byte lower-cased (`bytes[0]` of a `[u8; 4]`) -/
+def oldTagFromUnicode (u : Nat) : Nat :=
+  if u = tg 'Z' 'm' 't' 'h' then tg 'm' 'a' 't' 'h'
+  else if u = tg 'H' 'i' 'r' 'a' then tg 'k' 'a' 'n' 'a'
+  else if u = tg 'L' 'a' 'o' 'o' then tg 'l' 'a' 'o' ' '
+  else if u = tg 'Y' 'i' 'i' 'i' then tg 'y' 'i' ' ' ' '
+  else if u = tg 'N' 'k' 'o' 'o' then tg 'n' 'k' 'o' ' '
+  else if u = tg 'V' 'a' 'i' 'i' then tg 'v' 'a' 'i' ' '
+  else
+    match tagBytes u with
+    | b0 :: rest => tagOfBytes (asciiLower b0 :: rest)
+    | [] => 0
+
+/-- `tags[len] = t` on the `[Tag; 3]` of `ScriptTags` (index panic for `len ≥ 3`) -/
+def setTag (tags : List Nat) (len t : Nat) : Res (List Nat) :=
+  if len < tags.length then .val (tags.set len t) else .trap
+
+/-- `ScriptTags::from_unicode` followed by `as_slice` (`&self.tags[..self.len]`, slice panic for
+`len > 3`): the version-3 tag (`bytes[3] = b'3'`) unless the new tag is `mym2`, the new tag, the old tag -/
+def scriptTagsFromUnicode (u : Nat) : Res (List Nat) :=
+  let tags0 : List Nat := [0, 0, 0]
+  let st1 : Res (List Nat × Nat) :=
+    match newTagFromUnicode u with
+    | some nt =>
+      let st : Res (List Nat × Nat) :=
+        if nt ≠ tg 'm' 'y' 'm' '2' then
+          (setTag tags0 0 (tagOfBytes ((tagBytes nt).take 3 ++ [51]))).bind (fun ts => .val (ts, 1))
+        else .val (tags0, 0)
+      st.bind (fun p => (setTag p.1 p.2 nt).bind (fun ts => .val (ts, p.2 + 1)))
+    | none => .val (tags0, 0)
+  st1.bind (fun p =>
+    (setTag p.1 p.2 (oldTagFromUnicode u)).bind (fun ts =>
+      let len := p.2 + 1
+      if len ≤ ts.length then .val (ts.take len) else .trap))
+
 end FontVerif.HandLayout
